@@ -6,7 +6,9 @@ package PKGNAME
 
 import (
 	"fmt"
+	"net"
 	"os"
+	"time"
 
 	"github.com/usnistgov/dastard/packets"
 	"github.com/usnistgov/dastard/ringbuffer"
@@ -168,4 +170,164 @@ func vLenAny(d any) int {
 		return len(v)
 	}
 	return 0
+}
+
+// vRunAbacoUDPDevice: the Abaco source's UDP device over a real loopback socket. The harness sends datagrams: whole packets of
+// different lengths, packets cut short, and bytes that are no packet at all. What the device hands on must be exactly the whole
+// packets, each as it was sent (a subsequence in order: the network may lose datagrams, it does not invent or alter them), and a
+// batch that has been handed on is not changed by later traffic.
+func vRunAbacoUDPDevice(c *vCase) {
+	r := c.R
+	port := vFreeUDPPort()
+	dev, err := NewAbacoUDPReceiver(fmt.Sprintf("127.0.0.1:%d", port))
+	if err != nil {
+		c.Inconclusive("setup", "NewAbacoUDPReceiver: %v", err)
+		return
+	}
+	if err := dev.start(); err != nil {
+		c.Inconclusive("setup", "start: %v", err)
+		return
+	}
+	defer dev.stop()
+	conn, err := net.Dial("udp", fmt.Sprintf("127.0.0.1:%d", port))
+	if err != nil {
+		c.Inconclusive("setup", "dial: %v", err)
+		return
+	}
+	defer conn.Close()
+	nchan := vPick(r, 1, 2, 4, 8)
+	c.Describe("udp device: %d channels, seed=%d idx=%d", nchan, c.Seed, c.Idx)
+	type sentPkt struct {
+		seq    uint32
+		frames int
+		bytes  int
+	}
+	var sent []sentPkt
+	var hist []string
+	note := func(f string, a ...any) {
+		hist = append(hist, fmt.Sprintf(f, a...))
+		if len(hist) > 40 {
+			hist = hist[len(hist)-40:]
+		}
+	}
+	mk := func(k, frames int) []byte {
+		p := packets.NewPacket(10, 5, uint32(2000+k-1), 0) // (NewData advances the sequence number)
+		p.SetTimestamp(&packets.PacketTimestamp{T: uint64(5000000 + k*1000), Rate: 1e8})
+		d := make([]int16, nchan*frames)
+		for i := range d {
+			d[i] = int16(vAbVal(i%nchan, k*1000+i/nchan))
+		}
+		p.NewData(d, []int16{int16(nchan)})
+		return p.Bytes()
+	}
+	next := 0 // index into sent of the first packet not yet seen
+	var heldBatch []*packets.Packet
+	var heldSeq []uint32
+	check := func() bool {
+		got, err := dev.ReadAllPackets()
+		if err != nil {
+			c.Violate("c15:udp-device", "ReadAllPackets: %v; history %v", err, hist)
+			return false
+		}
+		// the batch handed on before must not have been touched by what arrived since
+		for i, p := range heldBatch {
+			if p.SequenceNumber() != heldSeq[i] {
+				c.Violate("c15:udp-device-batch-changed", "packet %d of a batch handed on earlier had sequence number %d and now has %d; history %v", i, heldSeq[i], p.SequenceNumber(), hist)
+				return false
+			}
+		}
+		for _, p := range got {
+			j := next
+			for j < len(sent) && sent[j].seq != p.SequenceNumber() {
+				j++
+			}
+			if j == len(sent) {
+				c.Violate("c15:udp-device", "the device handed on a packet with sequence number %d, %d frames, %d bytes: no whole packet that was sent and not yet seen has that number (next unseen %v); history %v",
+					p.SequenceNumber(), p.Frames(), p.Length(), sent[vMinInt(next, len(sent)):vMinInt(next+3, len(sent))], hist)
+				return false
+			}
+			if j > next {
+				c.Cov("udp_datagrams_lost_by_the_network", j-next)
+			}
+			k := int(sent[j].seq) - 2000
+			d, ok := p.Data.([]int16)
+			if p.Length() != sent[j].bytes || p.Frames() != sent[j].frames || !ok || len(d) != nchan*sent[j].frames {
+				c.Violate("c15:udp-device", "packet with sequence number %d was sent as %d bytes with %d frames, the device hands on %d bytes, %d frames, payload %T x%d; history %v",
+					p.SequenceNumber(), sent[j].bytes, sent[j].frames, p.Length(), p.Frames(), p.Data, vLenAny(p.Data), hist)
+				return false
+			}
+			for i, v := range d {
+				if v != int16(vAbVal(i%nchan, k*1000+i/nchan)) {
+					c.Violate("c15:udp-device", "packet with sequence number %d: sample %d is %d, sent was %d; history %v", p.SequenceNumber(), i, v, int16(vAbVal(i%nchan, k*1000+i/nchan)), hist)
+					return false
+				}
+			}
+			next = j + 1
+			c.Cov("udp_device_packets_handed_on", 1)
+		}
+		heldBatch = got
+		heldSeq = heldSeq[:0]
+		for _, p := range got {
+			heldSeq = append(heldSeq, p.SequenceNumber())
+		}
+		note("read: %d packets", len(got))
+		return true
+	}
+	n := 30 + r.Intn(60)
+	k := 0
+	for i := 0; i < n; i++ {
+		frames := vPick(r, 8, 50, 200, 400/nchan+1)
+		switch kind := r.Intn(10); {
+		case kind < 6:
+			b := mk(k, frames)
+			conn.Write(b)
+			sent = append(sent, sentPkt{uint32(2000 + k), frames, len(b)})
+			note("packet %d: %d bytes", 2000+k, len(b))
+			k++
+		case kind < 8:
+			// cut short: less than its own header says (after a longer datagram in most histories)
+			b := mk(k, frames)
+			cut := vPick(r, len(b)/2, len(b)-1, len(b)-2*nchan, 20, 16, 8, 1+r.Intn(len(b)-1))
+			if cut < 1 || cut >= len(b) {
+				cut = len(b) / 2
+			}
+			conn.Write(b[:cut])
+			note("packet %d cut to %d of %d bytes", 2000+k, cut, len(b))
+			c.Cov("udp_datagrams_cut_short", 1)
+			k++
+		case kind == 8:
+			g := make([]byte, vPick(r, 1, 15, 16, 100, 1000))
+			r.Read(g)
+			conn.Write(g)
+			note("%d bytes of noise", len(g))
+			c.Cov("udp_datagrams_of_noise", 1)
+		default:
+			conn.Write(nil) // an empty datagram
+			note("empty datagram")
+		}
+		if vChance(r, 0.3) {
+			time.Sleep(time.Duration(1+r.Intn(3)) * time.Millisecond)
+			if !check() {
+				return
+			}
+		}
+	}
+	for i := 0; i < 200 && next < len(sent); i++ {
+		time.Sleep(5 * time.Millisecond)
+		if !check() {
+			return
+		}
+	}
+	if next < len(sent) {
+		c.Cov("udp_device_histories_with_datagrams_outstanding", 1)
+	}
+	c.Cov("udp_device_histories", 1)
+	c.Nontrivial()
+}
+
+func vMinInt(a, b int) int {
+	if a < b {
+		return a
+	}
+	return b
 }
